@@ -16,6 +16,7 @@ class Tok(object):
 
 
 DT = Tok("declared-dtype")
+RAW_DT = Tok("raw-dtype")
 
 
 def mk_channel(vc, n, raw_data=None, **over):
@@ -44,6 +45,9 @@ def _setup_slice(interp):
         st.ghost.setdefault("read_data_calls", []).append((offset, length))
         return Window(lo, hi, "values", DT)
     interp.contracts_at_calls["nptdms.tdms:TdmsChannel.read_data"] = read_data
+    # the raw dtype is a different dtype token than the declared one (contract of _raw_data_dtype, harness
+    # raw_data_dtype): a slice built from it is not "of channel.dtype"
+    interp.contracts_at_calls["nptdms.tdms:TdmsChannel._raw_data_dtype"] = lambda i, f, a, k: RAW_DT
 
 
 def _opt(vc, name, present):
